@@ -23,10 +23,10 @@ SCHEMA = S.parse_sdl(SDL)
 ROOT = {"num": 7, "color": "c", "a": {"id": "i1", "a": 3}, "hello": "h"}
 
 DOC_A = "query Q($s: Boolean = false) { num @skip(if: $s) a { ...AF } } fragment AF on A { id a @include(if: $s) }"
-DOC_2 = "query One { num } query Two { color a { a } }"
+DOC_2 = "query One { num } query Two { ...RF a { a } } fragment RF on Query { color }"
 ALPHABET = [
     ("A", DOC_A, None, {}, {}),
-    ("B-failing", "{ color hello(n: 1) }", None, None, {("hello",): "raise"}),
+    ("B-failing", "{ ...RF hello(n: 1) } fragment RF on Query { color }", None, None, {("hello",): "raise"}),
     ("A-other-variables", DOC_A, None, {"s": True}, {}),
     ("two-ops-One", DOC_2, "One", None, {}),
     ("two-ops-Two", DOC_2, "Two", None, {}),
